@@ -23,10 +23,87 @@ def cmdPratt (payload : String) : String :=
     | .error .unsupported => "ERR unsupported"
     | .error .fuel => "ERR fuel"
 
+def locStr (l : Lex.Loc) : String := s!"{l.line}.{l.col}.{l.idx}"
+
+def errClass : Lex.ErrKind → String
+  | .illegalChar => "illegalChar"
+  | .stringNeverClosed => "stringNeverClosed"
+  | .unfinishedEscape => "unfinishedEscape"
+  | .invalidEscape => "invalidEscape"
+  | .expectedGt => "expectedGt"
+
+/-- `lex (c1 c2 …)` → same format as `hv lex` (without the file flag). -/
+def cmdLex (payload : String) : String :=
+  match Sexp.parse payload >>= Sexp.asRunes? with
+  | none => "BAD-INPUT"
+  | some cs =>
+    let r := Lex.lexAll cs
+    let toks := r.tokens.map fun t =>
+      s!"T{t.kind.code}:{".".intercalate (t.value.map fun c => toString c.toNat)}:{locStr t.start}-{locStr t.stop} "
+    let tail := match r.err, r.eof with
+      | some e, _ => s!"X{errClass e.kind}:{locStr e.start}-{locStr e.stop}"
+      | none, some t => s!"E:{locStr t.start}"
+      | none, none => "!fuel"
+    String.join toks ++ tail
+
+def parseLoc (s : String) : Option Lex.Loc :=
+  match (s.splitOn ".").map String.toNat? with
+  | [some l, some c, some i] => some ⟨l, c, i⟩
+  | _ => none
+
+/-- Parse one `T<kind>:<v1.v2…>:<loc>-<loc>` item of the token-stream format. -/
+def parseTokItem (s : String) : Option Lex.Tok := do
+  guard (s.startsWith "T")
+  match (String.ofList (s.toList.drop 1)).splitOn ":" with
+  | [k, v, span] =>
+    let kind ← k.toNat? >>= TokKind.ofCode?
+    let vals ← (if v == "" then some [] else (v.splitOn ".").mapM String.toNat?)
+    match span.splitOn "-" with
+    | [a, b] =>
+      let st ← parseLoc a
+      let en ← parseLoc b
+      pure ⟨kind, vals.map Char.ofNat, st, en⟩
+    | _ => none
+  | _ => none
+
+/-- `tokcheck (c1 c2 …) | <token stream line>` → `SPEC-OK` / `SPEC-FAIL`: does the
+implementation's token stream satisfy the lexical specification? Also checks the EOF position. -/
+def cmdTokCheck (payload : String) : String :=
+  match payload.splitOn " | " with
+  | [srcS, stream] =>
+    match Sexp.parse srcS >>= Sexp.asRunes? with
+    | none => "BAD-INPUT"
+    | some src =>
+      let items := (stream.splitOn " ").filter (· ≠ "")
+      let tokItems := items.filter (·.startsWith "T")
+      match tokItems.mapM parseTokItem with
+      | none => "BAD-INPUT"
+      | some toks =>
+        let eofItem := items.find? (·.startsWith "E:")
+        match eofItem with
+        | some e =>
+          let eofOK := parseLoc (String.ofList (e.toList.drop 2)) == some (Lex.Spec.locAt src src.length)
+          if Lex.Spec.tokensMeetSpec src toks && eofOK then "SPEC-OK" else "SPEC-FAIL"
+        | none => "SPEC-NA"   -- the stream ends in an error: judged by the error-path checks
+  | _ => "BAD-INPUT"
+
+/-- `selfcheck (c1 c2 …)` → does the *model's* piece list satisfy the specification? -/
+def cmdSelfCheck (payload : String) : String :=
+  match Sexp.parse payload >>= Sexp.asRunes? with
+  | none => "BAD-INPUT"
+  | some src =>
+    match Lex.pieces (src.length + 1) Lex.Loc.start src with
+    | .inl (.ok ps) => if Lex.Spec.tokenizes src ps then "SPEC-OK" else "SPEC-FAIL"
+    | .inl (.error _) => "SPEC-NA"
+    | .inr () => "FUEL"
+
 def dispatch (line : String) : String :=
   let (c, p) := splitCmd line
   match c with
   | "pratt" => cmdPratt p
+  | "lex" => cmdLex p
+  | "tokcheck" => cmdTokCheck p
+  | "selfcheck" => cmdSelfCheck p
   | "ping" => "pong"
   | _ => "BAD-COMMAND"
 
